@@ -65,7 +65,7 @@ def propC11 (c : Case) : String :=
     else if needsNone c.inp then "fail rejected_although_no_padding_needed"
     else "ok"
   | ["err", "tooLarge"] =>
-    if sumIn c.inp + 8 * (c.inp.length + 1) > 65535 then "ok" else "fail size_error_unjustified"
+    if sizeErrorJustified c.inp then "ok" else "fail size_error_unjustified"
   | ["err", "empty"] => if c.inp.isEmpty then "ok" else "fail empty_error_on_nonempty"
   | ["err", "internal"] => "fail internal_error"
   | _ => "fail unparsable_observation"
